@@ -343,6 +343,45 @@ func ClassifyPanic(v any, stack string) *PanicInfo {
 	return &PanicInfo{Msg: msg, Class: class, Func: fn, Stack: stack}
 }
 
+// Retained-result monitor. A layout that was handed to the caller must not change when later calls are made (a result
+// backed by memory that the library reuses). Run keeps the last small result of this process together with its canonical
+// encoding and re-encodes it after the next call has finished; a difference is recorded here and turned into a violation of
+// the running check by the worker. Only the sequential entry point does this (RunPlain is used concurrently).
+var (
+	retained       graph.Layout
+	retainedCanon  string
+	retainedSet    bool
+	RetainedChecks int    // number of retained results re-encoded after a later call
+	aliasViolation string // first difference seen since the last TakeAliasViolation
+)
+
+// TakeAliasViolation returns and clears the description of a retained result that changed during a later call.
+func TakeAliasViolation() string {
+	v := aliasViolation
+	aliasViolation = ""
+	return v
+}
+
+func recheckRetained(next graph.Layout, nextOK bool) {
+	if retainedSet {
+		RetainedChecks++
+		if now := Canon(retained); now != retainedCanon && aliasViolation == "" {
+			aliasViolation = fmt.Sprintf("a layout returned by an earlier Layout call changed while a later call ran (the caller's result is backed by memory the library reuses):\n--- as returned\n%s--- after the later call\n%s", clipStr(retainedCanon, 1500), clipStr(now, 1500))
+		}
+	}
+	retainedSet = false
+	if nextOK && len(next.Nodes)+len(next.Edges) <= 600 {
+		retained, retainedCanon, retainedSet = next, Canon(next), true
+	}
+}
+
+func clipStr(s string, n int) string {
+	if len(s) > n {
+		return s[:n] + "...\n"
+	}
+	return s
+}
+
 // Run calls the real autog.Layout once. A panic is recovered and described; fatal errors and hangs are
 // the business of the worker/driver protocol. extra options (e.g. a monitor) are appended after o's.
 func Run(edges [][]string, o Opts, extra ...autog.Option) (res RunResult) {
@@ -358,6 +397,7 @@ func Run(edges [][]string, o Opts, extra ...autog.Option) (res RunResult) {
 		if v := recover(); v != nil {
 			res.Panic = ClassifyPanic(v, string(debug.Stack()))
 		}
+		recheckRetained(res.Layout, res.Panic == nil)
 	}()
 	opts := append(o.Options(), extra...)
 	if o.Monitor {
